@@ -215,6 +215,89 @@ def Pred.eval {φ κ : Type} [DecidableEq κ] : Pred φ κ → Doc φ κ → Boo
   | .or a b, d => a.eval d || b.eval d
   | .not a, d => !(a.eval d)
 
+/-! ### calendar arithmetic (UTC, proleptic Gregorian; `Int` `/`, `%` are floor division/modulo
+for the positive divisors used here) -/
+
+/-- days since 1970-01-01 of a civil date -/
+def daysFromCivil (y m d : Int) : Int :=
+  let y' := if m ≤ 2 then y - 1 else y
+  let era := y' / 400
+  let yoe := y' - era * 400
+  let mp := (m + 9) % 12
+  let doy := (153 * mp + 2) / 5 + d - 1
+  let doe := yoe * 365 + yoe / 4 - yoe / 100 + doy
+  era * 146097 + doe - 719468
+
+/-- (year, month, day) of a day number -/
+def civilFromDays (z : Int) : Int × Int × Int :=
+  let z' := z + 719468
+  let era := z' / 146097
+  let doe := z' - era * 146097
+  let yoe := (doe - doe / 1460 + doe / 36524 - doe / 146096) / 365
+  let y := yoe + era * 400
+  let doy := doe - (365 * yoe + yoe / 4 - yoe / 100)
+  let mp := (5 * doy + 2) / 153
+  let d := doy - (153 * mp + 2) / 5 + 1
+  let m := if mp < 10 then mp + 3 else mp - 9
+  (if m ≤ 2 then y + 1 else y, m, d)
+
+def msPerDay : Int := 86400000
+
+inductive CalUnit where
+  | day | week | month | quarter | year
+deriving DecidableEq, Repr
+
+/-- `DateInterval` -/
+inductive DInterval where
+  | fixed (step : Int)
+  | calendar (u : CalUnit)
+deriving DecidableEq, Repr
+
+/-- `truncate_calendar` (epoch milliseconds) -/
+def truncCalendar (v : Int) (u : CalUnit) : Int :=
+  let days := v / msPerDay
+  let c := civilFromDays days
+  let start := match u with
+    | .day => days
+    | .week => days - (days + 3) % 7
+    | .month => daysFromCivil c.1 c.2.1 1
+    | .quarter => daysFromCivil c.1 (((c.2.1 - 1) / 3) * 3 + 1) 1
+    | .year => daysFromCivil c.1 1 1
+  start * msPerDay
+
+/-- `bucket_start`: fixed intervals label a value with the next multiple of the step at or above
+it (`ceil`, as the code and its test suite have it), calendar intervals with the start of the
+unit -/
+def dateBucket (iv : DInterval) (offset v : Int) : Int :=
+  match iv with
+  | .fixed step => (-((-(v - offset)) / step)) * step + offset
+  | .calendar u => truncCalendar (v - offset) u + offset
+
+/-- `add_interval` / `add_calendar` (the time of day of `cur` is dropped by the calendar units) -/
+def addInterval (iv : DInterval) (cur : Int) : Int :=
+  match iv with
+  | .fixed step => cur + step
+  | .calendar u =>
+    let days := cur / msPerDay
+    let c := civilFromDays days
+    let next := match u with
+      | .day => days + 1
+      | .week => days + 7
+      | .month => if c.2.1 + 1 > 12 then daysFromCivil (c.1 + 1) 1 1 else daysFromCivil c.1 (c.2.1 + 1) 1
+      | .quarter =>
+        if c.2.1 + 3 > 12 then daysFromCivil (c.1 + 1) (c.2.1 + 3 - 12) 1
+        else daysFromCivil c.1 (c.2.1 + 3) 1
+      | .year => daysFromCivil (c.1 + 1) 1 1
+    next * msPerDay
+
+/-- the `while current <= end` loop of `DateHistogramCollector::finish` -/
+def fillFrom (iv : DInterval) (cur hi : Int) : Nat → List Int
+  | 0 => []
+  | fuel + 1 => if cur ≤ hi then cur :: fillFrom iv (addInterval iv cur) hi fuel else []
+
+/-- `v as i64` on a finite float: truncation toward zero -/
+def truncToInt (q : Rat) : Int := if 0 ≤ q then q.floor else q.ceil
+
 /-- `CompositeSource`; `f64col = false` models a histogram source over an `i64` column: the
 collector reads `f64_values`, which is empty for such a column -/
 inductive CSrc (φ : Type) where
@@ -233,6 +316,8 @@ inductive BSpec (φ κ : Type) where
   | range (f : φ) (ranges : List (Option Rat × Option Rat)) (missing : Option Rat)
   | hist (f : φ) (interval offset : Rat) (minDoc : Nat) (ext hard : Option (Rat × Rat))
       (missing : Option Rat)
+  | dhist (f : φ) (iv : DInterval) (offset : Int) (minDoc : Nat) (ext hard : Option (Int × Int))
+      (missing : Option Int)
   | filter (p : Pred φ κ)
   | composite (srcs : List (CSrc φ)) (size : Nat) (after : Option (List (Part κ)))
 
@@ -253,6 +338,7 @@ inductive Agg (φ κ : Type) where
   | cardNum (f : φ) (missing : Option Rat)
   | percentiles (f : φ) (missing : Option Rat) (percents : List Rat)
   | ranks (f : φ) (missing : Option Rat) (targets : List Rat)
+  | topHits (size fromN : Nat) (sort : List (φ × Bool))
   | bucket (b : BSpec φ κ) (subs : Aggs φ κ)
 inductive Aggs (φ κ : Type) where
   | nil
@@ -266,6 +352,7 @@ inductive Node (κ : Type) where
   | set (vs : List (Part κ × Unit))
   | vals (vs : List Rat)
   | table (rows : List (Rat × Rat))
+  | hits (total : Nat) (hs : List (List (Option Rat) × Nat))
   | buckets (bs : List (Key κ × Nat × List (Node κ))) (after : Option (Key κ))
 
 abbrev Buckets (κ : Type) := List (Key κ × Nat × List (Node κ))
@@ -312,6 +399,11 @@ def keysOf (b : BSpec φ κ) (d : Doc φ κ) : List (Key κ) :=
         match hard with
         | some (lo, hi) => !(decide (v < lo) || decide (hi < v))
         | none => true)).map (fun v => Key.num (histId interval offset v))
+  | .dhist f iv offset _ _ hard missing =>
+    (((numVals f (missing.map (fun (m : Int) => (m : Rat))) d).map truncToInt).filter (fun v =>
+        match hard with
+        | some (lo, hi) => !(decide (v < lo) || decide (hi < v))
+        | none => true)).map (fun v => Key.num (dateBucket iv offset v))
   | .filter p => if p.eval d then [Key.unit] else []
   | .composite srcs _ _ =>
     let per := srcs.map (srcParts d)
@@ -327,6 +419,16 @@ def extraKeys (b : BSpec φ κ) : List (Key κ) :=
   | .hist _ interval offset _ ext hard _ =>
     match ext.or hard with
     | some (lo, hi) => (idRange (histId interval offset lo) (histId interval offset hi)).map Key.num
+    | none => []
+  | .dhist _ iv offset _ ext hard _ =>
+    match ext.or hard with
+    | some (lo, hi) =>
+      let a := dateBucket iv offset lo
+      let b := dateBucket iv offset hi
+      let start := if b < a then b else a
+      let stop := if b < a then a else b
+      let minStep : Int := match iv with | .fixed step => step | .calendar _ => msPerDay
+      (fillFrom iv start stop (((stop - start) / minStep).toNat + 2)).map Key.num
     | none => []
   | .filter _ => [Key.unit]
   | _ => []
@@ -386,6 +488,7 @@ def finishSeg (b : BSpec φ κ) (bs : Buckets κ) : Buckets κ :=
   | .rare _ maxDoc size =>
     keepTop rareLt size (bs.filter (fun x => decide (0 < x.2.1) && decide (x.2.1 ≤ maxDoc)))
   | .hist _ _ _ minDoc _ _ _ => bs.filter (fun x => decide (minDoc ≤ x.2.1))
+  | .dhist _ _ _ minDoc _ _ _ => bs.filter (fun x => decide (minDoc ≤ x.2.1))
   | _ => bs
 
 /-- the part of a `merge_intermediate_in_place` arm that runs after `merge_bucket_lists`
@@ -425,6 +528,7 @@ def specPost (b : BSpec φ κ) (bs : Buckets κ) : Buckets κ × Option (Key κ)
     (truncate size (sortBy rareLt
       (bs.filter (fun x => decide (0 < x.2.1) && decide (x.2.1 ≤ maxDoc)))), none)
   | .hist _ _ _ minDoc _ _ _ => (bs.filter (fun x => decide (minDoc ≤ x.2.1)), none)
+  | .dhist _ _ _ minDoc _ _ _ => (bs.filter (fun x => decide (minDoc ≤ x.2.1)), none)
   | b => finalPost b bs
 
 end Buckets
@@ -437,6 +541,37 @@ variable {φ κ : Type} [KOrd κ] [DecidableEq κ]
 def partSet (ps : List (Part κ)) : List (Part κ × Unit) := keySet Part.lt ps
 
 def ratLt (a b : Rat) : Bool := decide (a < b)
+
+/-! ### top_hits -/
+
+/-- `SortKeyPart::cmp` on a numeric sort value: `Missing` last whatever the order -/
+def svLt (desc : Bool) : Option Rat → Option Rat → Bool
+  | none, _ => false
+  | some _, none => true
+  | some x, some y => if desc then decide (y < x) else decide (x < y)
+
+/-- `SortKey::cmp`: parts in order, then (segment_ord, doc_id) — the position of the document in
+the index, which is `Doc.id` for documents committed in corpus order -/
+def hitLt : List Bool → (List (Option Rat) × Nat) → (List (Option Rat) × Nat) → Bool
+  | d :: ds, (x :: xs, i), (y :: ys, j) =>
+    if svLt d x y then true else if svLt d y x then false else hitLt ds (xs, i) (ys, j)
+  | _, (_, i), (_, j) => decide (i < j)
+
+/-- `pick_numeric`: smallest value for ascending, largest for descending order -/
+def pickVal (desc : Bool) : List Rat → Option Rat
+  | [] => none
+  | x :: xs => some (if desc then maxL x xs else minL x xs)
+
+def mkHit (sort : List (φ × Bool)) (d : Doc φ κ) : List (Option Rat) × Nat :=
+  (sort.map (fun s => pickVal s.2 (d.num s.1)), d.id)
+
+/-- heap capacity of `TopHitsCollector` / `merge_top_hits` -/
+def hitsLimit (size fromN : Nat) : Nat := max (max (size + fromN) size) 1
+
+/-- keep the `limit` best, sort, then `skip(from).take(size)` -/
+def hitsWindow (dirs : List Bool) (size fromN : Nat) (hs : List (List (Option Rat) × Nat)) :
+    List (List (Option Rat) × Nat) :=
+  (((sortBy (hitLt dirs) hs).take (hitsLimit size fromN)).drop fromN).take size
 
 mutual
 /-- one segment: run the collectors over the segment's matched documents and `finish` -/
@@ -452,6 +587,8 @@ def collect : Agg φ κ → List (Doc φ κ) → Node κ
   | .cardNum f m, docs => .set (partSet ((docs.flatMap (numVals f m)).map Part.num))
   | .percentiles f m _, docs => .vals (sortBy ratLt (docs.flatMap (numVals f m)))
   | .ranks f m _, docs => .vals (sortBy ratLt (docs.flatMap (numVals f m)))
+  | .topHits size fromN sort, docs =>
+    .hits docs.length (hitsWindow (sort.map (·.2)) size fromN (docs.map (mkHit sort)))
   | .bucket b subs, docs => .buckets (finishSeg b (rawBuckets b (collectList subs) docs)) none
 def collectList : Aggs φ κ → List (Doc φ κ) → List (Node κ)
   | .nil, _ => []
@@ -468,6 +605,8 @@ def merge : Agg φ κ → Node κ → Node κ → Node κ
   | .cardNum _ _, .set a, .set b => .set (unionWith Part.lt (fun _ _ => ()) a b)
   | .percentiles _ _ _, .vals a, .vals b => .vals (sortBy ratLt (a ++ b))
   | .ranks _ _ _, .vals a, .vals b => .vals (sortBy ratLt (a ++ b))
+  | .topHits size fromN sort, .hits ta a, .hits tb b =>
+    .hits (ta + tb) (hitsWindow (sort.map (·.2)) size fromN (a ++ b))
   | .bucket b subs, .buckets x _, .buckets y _ =>
     .buckets (mergePost b (unionWith Key.lt
       (fun v w => (v.1 + w.1, mergeList subs v.2 w.2)) x y)) none
@@ -526,6 +665,8 @@ def agg : Agg φ κ → List (Doc φ κ) → Node κ
   | .ranks f m ts, docs =>
     let vs := sortBy ratLt (docs.flatMap (numVals f m))
     .table (ts.map (fun t => (t, percentileRankOf vs t)))
+  | .topHits size fromN sort, docs =>
+    .hits docs.length (((sortBy (hitLt (sort.map (·.2))) (docs.map (mkHit sort))).drop fromN).take size)
   | .bucket b subs, docs =>
     let r := specPost b (rawBuckets b.ideal (aggs subs) docs)
     .buckets r.1 r.2
